@@ -40,6 +40,8 @@ pub enum FuOp {
     ProvideLockSingle { u: usize, lp: usize, amount: u128, dur: u64, lock_id: Option<String> },
     SetPenalty { u: usize, pct: u64 },
     SetFarmFee { u: usize, denom: String, amt: u128 },
+    /// owner changes one numeric configuration field: max_farms | epoch_buffer | min_unlock | max_unlock | farm_expiration
+    SetCfg { u: usize, field: String, val: u64 },
 }
 
 #[derive(Clone, Debug, Default, PartialEq)]
@@ -197,6 +199,17 @@ pub fn apply(w: &mut World, op: &FuOp) -> Outcome {
         }
         FuOp::SetPenalty { u, pct } => w.exec(&user(w, *u), &fma, &upd(None, Some(Decimal::percent(*pct))), &[]),
         FuOp::SetFarmFee { u, denom, amt } => w.exec(&user(w, *u), &fma, &upd(Some(coin(*amt, denom)), None), &[]),
+        FuOp::SetCfg { u, field, val } => {
+            let mut m = (None, None, None, None, None);
+            match field.as_str() {
+                "max_farms" => m.0 = Some(*val as u32),
+                "epoch_buffer" => m.1 = Some(*val as u32),
+                "min_unlock" => m.2 = Some(*val),
+                "max_unlock" => m.3 = Some(*val),
+                _ => m.4 = Some(*val),
+            }
+            w.exec(&user(w, *u), &fma, &fm::ExecuteMsg::UpdateConfig { fee_collector_addr: None, epoch_manager_addr: None, pool_manager_addr: None, create_farm_fee: None, max_concurrent_farms: m.0, max_farm_epoch_buffer: m.1, min_unlocking_duration: m.2, max_unlocking_duration: m.3, farm_expiration_time: m.4, emergency_unlock_penalty: None }, &[])
+        }
     }
 }
 fn upd(fee: Option<Coin>, pen: Option<Decimal>) -> fm::ExecuteMsg {
@@ -791,6 +804,24 @@ pub fn enabled(c: &FuChecker, w: &World, pre: &FuObs, g: &FuGhost) -> Vec<FuOp> 
             ops.push(FuOp::SetFarmFee { u: OWNER, denom: "uusdc".into(), amt: 1000 });
         }
         ops.push(FuOp::SetFarmFee { u: B, denom: "uom".into(), amt: 0 });
+        // other owner configuration: each field once, to an unusual but valid value
+        if let Some(cf) = &pre.cfg {
+            if cf.max_concurrent_farms < 3 {
+                ops.push(FuOp::SetCfg { u: OWNER, field: "max_farms".into(), val: 3 });
+            }
+            if cf.max_farm_epoch_buffer != 2 {
+                ops.push(FuOp::SetCfg { u: OWNER, field: "epoch_buffer".into(), val: 2 });
+            }
+            if cf.min_unlocking_duration == DAY {
+                ops.push(FuOp::SetCfg { u: OWNER, field: "min_unlock".into(), val: 2 * DAY });
+            }
+            if cf.max_unlocking_duration > 200 * DAY {
+                ops.push(FuOp::SetCfg { u: OWNER, field: "max_unlock".into(), val: 50 * DAY });
+            }
+            if cf.farm_expiration_time == mantra_dex_std::constants::MONTH_IN_SECONDS {
+                ops.push(FuOp::SetCfg { u: OWNER, field: "farm_expiration".into(), val: 2 * mantra_dex_std::constants::MONTH_IN_SECONDS });
+            }
+        }
     }
     ops
 }
